@@ -1023,6 +1023,19 @@ class LegacyMul(GroupContract):
         F = getattr(ex, "field", None)
         if F is not None and E.legacy_scalar_applicable(ex, vals):
             return E.LEGACY_SCALAR_APPLY["__mul__"](ex, F, vals, line)         # scalar mode over the legacy class
+        if F is None and getattr(ex, "coord_world", False) and is_affine(vals["self"]) and vals["self"] is not infinity(ex):
+            # coordinate world of the key loaders: `order * point` is the identity exactly for the points of the subgroup <G>
+            # (INSUB); by this contract the product is the k-fold sum in the true group, points of order 2 included
+            from contracts.keys_load import INSUB
+            o = vals["self"]
+            x, y = o.fields["_Point__x"], o.fields["_Point__y"]
+            ex.assumptions.add("`n * point == INFINITY` (legacy affine arithmetic) decides membership in the subgroup of G through the contract of Point.__mul__ (C07)")
+            if ex.branch(SBool(INSUB(T(x), T(y)))):
+                return infinity(ex)
+            r = SObj(o.cls, dict(o.fields))
+            r.fields["_Point__x"], r.fields["_Point__y"] = ex.fresh_int("mx"), ex.fresh_int("my")
+            r.ghost["not_infinity"] = True
+            return r
         from pyvc.interp import FuncRef
         return ex.inline(FuncRef(self.qual), [vals["self"], vals["other"]], {}, line)
 
